@@ -7,12 +7,34 @@ pref = sys.argv[1:]
 ids = sorted(d for d in os.listdir(os.path.join(V, "seeded")) if os.path.exists(os.path.join(V, "seeded", d, "meta.json")))
 if pref:
     ids = [i for i in ids if any(i.startswith(p) for p in pref)]
-missed = []
+# ids of one property run one after the other (they share that property's run directory); properties are spread over LANES parallel lanes by estimated cost
+import concurrent.futures as cf, threading
+LANES = int(os.environ.get("SEEDED_LANES", "4"))
+COST = {"C12": 5.0, "C13": 5.0, "C01": 2.5, "C02": 2.0, "C04": 2.0, "C09": 2.0}
+byprop = {}
 for sid in ids:
-    r = subprocess.run([sys.executable, os.path.join(V, "tools", "run_seeded.py"), sid], stdout=subprocess.PIPE, stderr=subprocess.STDOUT, text=True)
-    line = [l for l in r.stdout.splitlines() if " on seeded " in l]
-    out = line[-1][:260] if line else ("ERROR " + r.stdout[-300:].replace("\n", " | "))
-    print(sid, "|", out, flush=True)
-    if not line or "exit 1" not in line[-1]:
-        missed.append(sid)
-print("SUMMARY: %d seeded changes, %d not caught: %s" % (len(ids), len(missed), " ".join(missed)), flush=True)
+    try:
+        prop = json.load(open(os.path.join(V, "seeded", sid, "meta.json")))["breaks_property"]
+    except Exception:
+        prop = sid[:3]
+    byprop.setdefault(prop, []).append(sid)
+lanes = [[] for _ in range(LANES)]; load = [0.0] * LANES
+for prop, lst in sorted(byprop.items(), key=lambda kv: -COST.get(kv[0], 1.0) * len(kv[1])):
+    k = load.index(min(load)); lanes[k] += lst; load[k] += COST.get(prop, 1.0) * len(lst)
+missed = []; lock = threading.Lock()
+
+
+def run_lane(lst):
+    for sid in lst:
+        r = subprocess.run([sys.executable, os.path.join(V, "tools", "run_seeded.py"), sid], stdout=subprocess.PIPE, stderr=subprocess.STDOUT, text=True)
+        line = [l for l in r.stdout.splitlines() if " on seeded " in l]
+        out = line[-1][:260] if line else ("ERROR " + r.stdout[-300:].replace("\n", " | "))
+        with lock:
+            print(sid, "|", out, flush=True)
+            if not line or "exit 1" not in line[-1]:
+                missed.append(sid)
+
+
+with cf.ThreadPoolExecutor(max_workers=LANES) as ex:
+    list(ex.map(run_lane, lanes))
+print("SUMMARY: %d seeded changes, %d not caught: %s" % (len(ids), len(missed), " ".join(sorted(missed))), flush=True)
